@@ -42,7 +42,10 @@ MUTATIONS = [
     ("C03", "flags-unconditional", "iteration_graph/_generate_ir.py", "    if self.expression != Integer(0):\n        for flag", "    if True:\n        for flag", 1),
     ("C16", "context-add-or", "iteration_graph/identifiable_expression/_extract_context.py", "            is_sparse=self.is_sparse and other.is_sparse,", "            is_sparse=self.is_sparse or other.is_sparse,", 1),
     ("C01", "desugar-add-unfiltered", "desugar/_desugar_expression.py", "        if every_term_has_index(self.left, index) and every_term_has_index(self.right, index)\n    }\n\n    output = desugar.Add(\n        desugar_expression(self.left, left_indexes - intersection_indexes, ids),\n        desugar_expression(self.right, right_indexes - intersection_indexes, ids),\n    )", "        if every_term_has_index(self.left, index) or every_term_has_index(self.right, index)\n    }\n\n    output = desugar.Add(\n        desugar_expression(self.left, left_indexes - intersection_indexes, ids),\n        desugar_expression(self.right, right_indexes - intersection_indexes, ids),\n    )", 1),
-    ("C01", "desugar-tensor-skips-contract", "desugar/_desugar_expression.py", "    for index in contract_indexes:\n        output = desugar.Contract(index, output)\n    return output\n\n\n@desugar_expression.register(sugar.Add)", "    for index in sorted(contract_indexes)[:1]:\n        output = desugar.Contract(index, output)\n    return output\n\n\n@desugar_expression.register(sugar.Add)", 1),
+    # (only the first private index of a tensor gets its Contract node: the iteration-graph stage still sums a free private
+    # index inside its own term, so results are unchanged on the whole family - semantically harmless; the rewrite leaves the
+    # pyvc subset (sorted() of a symbolic set), so the placement contract is undecided and the bounded part decides)
+    ("C01", "harmless-desugar-tensor-partial-contract", "desugar/_desugar_expression.py", "    for index in contract_indexes:\n        output = desugar.Contract(index, output)\n    return output\n\n\n@desugar_expression.register(sugar.Add)", "    for index in sorted(contract_indexes)[:1]:\n        output = desugar.Contract(index, output)\n    return output\n\n\n@desugar_expression.register(sugar.Add)", 0),
     ("C01", "desugar-multiply-left-gets-all", "desugar/_desugar_expression.py", "    output = desugar.Multiply(\n        desugar_expression(self.left, left_indexes - intersection_indexes, ids),", "    output = desugar.Multiply(\n        desugar_expression(self.left, left_indexes, ids),", 1),
     ("C01", "every-term-multiply-and", "desugar/_desugar_expression.py", "            return every_term_has_index(self.left, index) or every_term_has_index(self.right, index)", "            return every_term_has_index(self.left, index) and every_term_has_index(self.right, index)", 1),
     ("C01", "is-sparse-ignores-output", "iteration_graph/_generate_ir.py", "    is_sparse = self.is_sparse_input() and (self.output is None or self.is_sparse_output())", "    is_sparse = self.is_sparse_input()", 1),
